@@ -306,7 +306,7 @@ fn index_state(scn: &Scenario, home: &Path) -> &'static str {
 }
 
 /// R1/R3 over the state a successful run leaves behind (every git dependency of the consumer).
-fn judge_tree(scn: &Scenario, home: &Path, cons: &Path) -> Option<(String, String)> {
+pub fn judge_tree(scn: &Scenario, home: &Path, cons: &Path) -> Option<(String, String)> {
     if let Some(v) = judge_one(&scn.commit, &scn.reference, home, cons) {
         return Some(v);
     }
@@ -483,6 +483,9 @@ pub fn main(cli: &Cli) -> i32 {
     }
     let n_scn = cli.get_usize("scenarios", if cli.thorough() { 24 } else { 3 });
     let n_sampled = cli.get_usize("sampled", if cli.thorough() { 400 } else { 96 });
+    let n_two = cli.get_usize("two", if cli.thorough() { 60 } else { 20 });
+    let two_only = cli.get_usize("two-only", 0) > 0;
+    let mut two_runs = 0usize;
     let mut report = Report::new(PROP);
     let mut total_trials = 0usize;
     let mut fired_by_kind: BTreeMap<String, usize> = BTreeMap::new();
@@ -577,6 +580,35 @@ pub fn main(cli: &Cli) -> i32 {
                 });
             }
         }
+        // one file (or directory) of the checkout that the file system refuses for as long as the build runs — every
+        // retry meets the same error, everything around it succeeds
+        {
+            let mut rng = Rng::new(derive(cli.seed, "c30-pathfail", si as u64));
+            let mut targets: BTreeSet<String> = BTreeSet::new();
+            for e in &rec_m.events {
+                if site_of(e) == "checkout" {
+                    if let Some(at) = e.arg.find("/git/checkouts/") {
+                        let rest: Vec<&str> = e.arg[at + "/git/checkouts/".len()..].split_whitespace().next().unwrap_or("").split('/').collect();
+                        if rest.len() >= 3 {
+                            targets.insert(format!("/{}", rest[1..].join("/")));
+                        }
+                    }
+                }
+            }
+            let mut targets: Vec<String> = targets.into_iter().collect();
+            for i in (1..targets.len()).rev() {
+                let j = rng.below(i + 1);
+                targets.swap(i, j);
+            }
+            for t in targets.iter().take(if cli.thorough() { 24 } else { 10 }) {
+                let errno = *rng.pick(&[libc::ENOSPC, libc::EIO, libc::EACCES, libc::EDQUOT]);
+                planned.push(Planned {
+                    trial: Trial { name: format!("P{}e{}", fnv64(t.as_bytes()) % 100000, errno), runs: vec![RunCfg { plan: format!("P:{errno}:{t}"), gate: "M".into(), clock: clock0 }, RunCfg { plan: String::new(), gate: "M".into(), clock: clock0 }], prelock: None },
+                    sig: vec![format!("PATH-ERRNO{}:checkout", errno)],
+                    exhaustive_part: false,
+                });
+            }
+        }
         // ---- plan: sampled part (errno, short writes, two-fault sequences, restart with another clock)
         let mut rng = Rng::new(derive(cli.seed, "c30-sampled", si as u64));
         let per_scn = n_sampled / n_scn.max(1) + 1;
@@ -628,6 +660,13 @@ pub fn main(cli: &Cli) -> i32 {
                     });
                 }
             }
+        }
+        if two_only {
+            planned.clear();
+        }
+        if let Some(prefix) = cli.get("only") {
+            // development aid: only the trials whose name starts with this (e.g. --only P)
+            planned.retain(|p| p.trial.name.starts_with(prefix));
         }
         // ---- execute
         let results = par_map(workers, planned.len(), |i| run_trial(&scn, &planned[i].trial, &base.join(format!("w{si}-{i}")), false));
@@ -688,10 +727,29 @@ pub fn main(cli: &Cli) -> i32 {
                 report.add(&kf, &v, "/verif/replays", &format!("{}-{}-{}", cli.seed, si, minimal.0.name));
             }
         }
+        // ---- two concurrent builds over one cache, in lock-step (c30two.rs)
+        if n_two > 0 {
+            let (n, viols, pr) = crate::c30two::batch(&scn, &base, derive(cli.seed, "two", si as u64), n_two, workers);
+            total_trials += n;
+            two_runs += n;
+            for (k, v) in pr {
+                *probes.entry(k).or_insert(0) += v;
+            }
+            for (clause, detail, rp) in viols {
+                ev.violations += 1;
+                let key = format!("{clause}|two-builds");
+                if !seen_violation_keys.insert(key) {
+                    continue;
+                }
+                let v = Violation { clause: clause.clone(), detail, signature: vec!["two-builds".into()], replay: rp };
+                report.add(&kf, &v, "/verif/replays", &format!("{}-{}-two", cli.seed, si));
+            }
+        }
         let _ = std::fs::remove_dir_all(&base);
         std::fs::create_dir_all(&base).ok();
     }
     ev.set("evaluations", json!(total_trials));
+    ev.set("two_concurrent_builds_runs", json!(two_runs));
     ev.set("distinct_nontrivial", json!(distinct.len()));
     ev.set("rule", json!("one evaluation = one fault sequence against a fresh $HOME: faulted `forc build`(s) of a generated consumer with a file:// git dependency, then a fault-free build, then the tree/exit/lock oracles. Exhaustive part: KILL before every mutating libc call of the main thread and TORN (half the bytes, then death) at every write, per scenario. Sampled part: errno/short-write/two-crash sequences. Distinct+non-trivial = distinct (scenario, fault plan) whose fault actually fired (the shim logged it)."));
     ev.set("exhaustive", json!(true));
@@ -710,7 +768,7 @@ pub fn main(cli: &Cli) -> i32 {
     ev.assumptions = vec![
         "crash = process death at a libc call boundary or inside one write; everything the kernel accepted survives (no power-loss model)".into(),
         "only the main thread's calls are fault points; other threads' calls are counted".into(),
-        "two concurrent fetchers are out of scope (flock is not reachable at the libc seam)".into(),
+        "two concurrent builds: the advisory flock is not an event at the libc seam; whether a build waits in it is observed (/proc/<pid>/syscall, /proc/locks), and the two builds are scheduled at libc file-system calls of their main threads only".into(),
     ];
     ev.write("/verif/evidence");
     cleanup_scratch();
@@ -761,6 +819,26 @@ fn replay(path: &str, base: &Path) -> i32 {
     let seed = v["scenario"]["scenario_seed"].as_u64().unwrap_or_else(|| harness_error("replay: no scenario_seed"));
     let idx = v["scenario"]["scenario_idx"].as_u64().unwrap_or(0) as usize;
     let scn = make_scenario(base, seed, idx);
+    if v["mode"].as_str() == Some("two-builds") {
+        let got = crate::c30two::replay(&scn, base, &v);
+        cleanup_scratch();
+        let want = v["clause"].as_str().unwrap_or("");
+        return match got {
+            Some((c, d)) if c == want => {
+                println!("reproduced clause {c}: {d}");
+                println!("VIOLATION property={PROP} replay={path}");
+                1
+            }
+            Some((c, d)) => {
+                println!("replay produced a different clause {c} (expected {want}): {d}");
+                2
+            }
+            None => {
+                println!("replay did not reproduce (no violation)");
+                0
+            }
+        };
+    }
     let runs: Vec<RunCfg> = v["runs"].as_array().cloned().unwrap_or_default().iter().map(|r| RunCfg { plan: r["plan"].as_str().unwrap_or("").into(), gate: r["gate"].as_str().unwrap_or("M").into(), clock: r["clock"].as_i64().unwrap_or(0) }).collect();
     let t = Trial { name: "replay".into(), runs, prelock: v["prelock"].as_str().map(String::from) };
     let r = run_trial(&scn, &t, &base.join("replay"), true);
